@@ -245,6 +245,23 @@ pub fn run_c04(tier: Tier) -> i32 {
         ]),
         "C04",
     ));
+    // votes that arrive after the block they concern is already certified (by votes or by a
+    // received certificate): still recorded, repeated -> Duplicate, conflicting -> Slashable
+    let t5 = Arc::new(make_epoch(&[1, 1, 1, 1, 1]));
+    fams.push(PoolSlotSys::new(
+        "T5-votes-after-certification",
+        t5.clone(),
+        0,
+        cat(vec![
+            votes(N, 1, 0, &[1, 2, 3]),
+            votes(S, 1, 0, &[4]),
+            votes(NF, 1, 0, &[4]),
+            votes(F, 1, 0, &[4]),
+            votes(SF, 1, 0, &[3]),
+            vec![cert(CK::NotarFb, 1, 0, &[1, 2], &[4]), cert(CK::Skip, 1, 0, &[4], &[1, 3])],
+        ]),
+        "C04",
+    ));
     if tier == Tier::Thorough {
         let e5 = Arc::new(make_epoch(&[1, 1, 1, 1, 1]));
         fams.push(PoolSlotSys::new(
